@@ -93,7 +93,7 @@ PROPS = {'C18': {'title': 'Inflights window is a bounded FIFO under resizing',
                        'DESIGN.md A.4'],
          'assumptions': ['mode S for raft.rs and raw_node.rs (fatal!/panic!/assert! abort; postconditions hold on normal return)',
                          'assumed contracts (fingerprint-locked in spec/assumed.lock.json): ProgressTracker::{get_mut, record_vote, clear}, '
-                         'Configuration::to_conf_state, Raft::{new, check_quorum_active, commit_apply, has_unapplied_conf_changes}, RaftCore::try_batching, '
+                         'Configuration::to_conf_state, Raft::has_unapplied_conf_changes, RaftCore::try_batching, '
                          'ReadOnly::* (abstract model of the pending-read table)',
                          'specified helpers for std / protobuf calls (R9) and the three cut texts (R10) listed in the evidence file'],
          'bounded': ['mon_c06 --prop C20 (RawNode driver, panics only)', 'mon_cluster --prop C20 (three nodes, lossy network, panics only)']},
@@ -135,7 +135,7 @@ PROPS = {'C18': {'title': 'Inflights window is a bounded FIFO under resizing',
                      'mon_c14 (log reads)'],
          'assumptions': ['mode S for raft.rs and raw_node.rs (fatal!/panic!/assert! abort; postconditions hold on normal return)',
                          'assumed contracts (fingerprint-locked in spec/assumed.lock.json): ProgressTracker::{get_mut, record_vote, clear}, '
-                         'Configuration::to_conf_state, Raft::{new, check_quorum_active, commit_apply, has_unapplied_conf_changes}, RaftCore::try_batching, '
+                         'Configuration::to_conf_state, Raft::has_unapplied_conf_changes, RaftCore::try_batching, '
                          'ReadOnly::* (abstract model of the pending-read table)',
                          'specified helpers for std / protobuf calls (R9) and the three cut texts (R10) listed in the evidence file']},
  'C03': {'title': 'Leader completeness and the election restriction',
@@ -152,7 +152,7 @@ PROPS = {'C18': {'title': 'Inflights window is a bounded FIFO under resizing',
          'undecided': ['leader completeness itself (cluster-wide induction)'],
          'assumptions': ['mode S for raft.rs and raw_node.rs (fatal!/panic!/assert! abort; postconditions hold on normal return)',
                          'assumed contracts (fingerprint-locked in spec/assumed.lock.json): ProgressTracker::{get_mut, record_vote, clear}, '
-                         'Configuration::to_conf_state, Raft::{new, check_quorum_active, commit_apply, has_unapplied_conf_changes}, RaftCore::try_batching, '
+                         'Configuration::to_conf_state, Raft::has_unapplied_conf_changes, RaftCore::try_batching, '
                          'ReadOnly::* (abstract model of the pending-read table)',
                          'specified helpers for std / protobuf calls (R9) and the three cut texts (R10) listed in the evidence file'],
          'cone': {'P': [], 'S': ['raft']},
@@ -169,7 +169,7 @@ PROPS = {'C18': {'title': 'Inflights window is a bounded FIFO under resizing',
          'undecided': ['the crash-point statement over all schedules'],
          'assumptions': ['mode S for raft.rs and raw_node.rs (fatal!/panic!/assert! abort; postconditions hold on normal return)',
                          'assumed contracts (fingerprint-locked in spec/assumed.lock.json): ProgressTracker::{get_mut, record_vote, clear}, '
-                         'Configuration::to_conf_state, Raft::{new, check_quorum_active, commit_apply, has_unapplied_conf_changes}, RaftCore::try_batching, '
+                         'Configuration::to_conf_state, Raft::has_unapplied_conf_changes, RaftCore::try_batching, '
                          'ReadOnly::* (abstract model of the pending-read table)',
                          'specified helpers for std / protobuf calls (R9) and the three cut texts (R10) listed in the evidence file'],
          'cone': {'S': ['raft', 'raw_node', 'memstorage']},
@@ -186,7 +186,7 @@ PROPS = {'C18': {'title': 'Inflights window is a bounded FIFO under resizing',
          'undecided': ['"a healthy leader is never deposed" as a history statement'],
          'assumptions': ['mode S for raft.rs and raw_node.rs (fatal!/panic!/assert! abort; postconditions hold on normal return)',
                          'assumed contracts (fingerprint-locked in spec/assumed.lock.json): ProgressTracker::{get_mut, record_vote, clear}, '
-                         'Configuration::to_conf_state, Raft::{new, check_quorum_active, commit_apply, has_unapplied_conf_changes}, RaftCore::try_batching, '
+                         'Configuration::to_conf_state, Raft::has_unapplied_conf_changes, RaftCore::try_batching, '
                          'ReadOnly::* (abstract model of the pending-read table)',
                          'specified helpers for std / protobuf calls (R9) and the three cut texts (R10) listed in the evidence file'],
          'cone': {'S': ['raft']}},
@@ -204,7 +204,7 @@ PROPS = {'C18': {'title': 'Inflights window is a bounded FIFO under resizing',
          'undecided': ['exactly-once over the lifetime'],
          'assumptions': ['mode S for raft.rs and raw_node.rs (fatal!/panic!/assert! abort; postconditions hold on normal return)',
                          'assumed contracts (fingerprint-locked in spec/assumed.lock.json): ProgressTracker::{get_mut, record_vote, clear}, '
-                         'Configuration::to_conf_state, Raft::{new, check_quorum_active, commit_apply, has_unapplied_conf_changes}, RaftCore::try_batching, '
+                         'Configuration::to_conf_state, Raft::has_unapplied_conf_changes, RaftCore::try_batching, '
                          'ReadOnly::* (abstract model of the pending-read table)',
                          'specified helpers for std / protobuf calls (R9) and the three cut texts (R10) listed in the evidence file',
                          'VecDeque::front/back standard semantics'],
@@ -222,7 +222,7 @@ PROPS = {'C18': {'title': 'Inflights window is a bounded FIFO under resizing',
          'undecided': ['log matching between nodes (cluster statement)'],
          'assumptions': ['mode S for raft.rs and raw_node.rs (fatal!/panic!/assert! abort; postconditions hold on normal return)',
                          'assumed contracts (fingerprint-locked in spec/assumed.lock.json): ProgressTracker::{get_mut, record_vote, clear}, '
-                         'Configuration::to_conf_state, Raft::{new, check_quorum_active, commit_apply, has_unapplied_conf_changes}, RaftCore::try_batching, '
+                         'Configuration::to_conf_state, Raft::has_unapplied_conf_changes, RaftCore::try_batching, '
                          'ReadOnly::* (abstract model of the pending-read table)',
                          'specified helpers for std / protobuf calls (R9) and the three cut texts (R10) listed in the evidence file',
                          'R10: the stamping loop of append_entry'],
@@ -243,7 +243,7 @@ PROPS = {'C18': {'title': 'Inflights window is a bounded FIFO under resizing',
          'undecided': ['durability on a quorum as a cluster statement'],
          'assumptions': ['mode S for raft.rs and raw_node.rs (fatal!/panic!/assert! abort; postconditions hold on normal return)',
                          'assumed contracts (fingerprint-locked in spec/assumed.lock.json): ProgressTracker::{get_mut, record_vote, clear}, '
-                         'Configuration::to_conf_state, Raft::{new, check_quorum_active, commit_apply, has_unapplied_conf_changes}, RaftCore::try_batching, '
+                         'Configuration::to_conf_state, Raft::has_unapplied_conf_changes, RaftCore::try_batching, '
                          'ReadOnly::* (abstract model of the pending-read table)',
                          'specified helpers for std / protobuf calls (R9) and the three cut texts (R10) listed in the evidence file',
                          'VecDeque::front/back standard semantics'],
@@ -292,7 +292,7 @@ PROPS = {'C18': {'title': 'Inflights window is a bounded FIFO under resizing',
          'undecided': ['application state equality (outside the library)'],
          'assumptions': ['mode S for raft.rs and raw_node.rs (fatal!/panic!/assert! abort; postconditions hold on normal return)',
                          'assumed contracts (fingerprint-locked in spec/assumed.lock.json): ProgressTracker::{get_mut, record_vote, clear}, '
-                         'Configuration::to_conf_state, Raft::{new, check_quorum_active, commit_apply, has_unapplied_conf_changes}, RaftCore::try_batching, '
+                         'Configuration::to_conf_state, Raft::has_unapplied_conf_changes, RaftCore::try_batching, '
                          'ReadOnly::* (abstract model of the pending-read table)',
                          'specified helpers for std / protobuf calls (R9) and the three cut texts (R10) listed in the evidence file'],
          'cone': {'P': [], 'S': ['raft']},
@@ -311,7 +311,7 @@ PROPS = {'C18': {'title': 'Inflights window is a bounded FIFO under resizing',
          'undecided': ['identical configurations at equal applied index across nodes (history statement)'],
          'assumptions': ['mode S for raft.rs and raw_node.rs (fatal!/panic!/assert! abort; postconditions hold on normal return)',
                          'assumed contracts (fingerprint-locked in spec/assumed.lock.json): ProgressTracker::{get_mut, record_vote, clear}, '
-                         'Configuration::to_conf_state, Raft::{new, check_quorum_active, commit_apply, has_unapplied_conf_changes}, RaftCore::try_batching, '
+                         'Configuration::to_conf_state, Raft::has_unapplied_conf_changes, RaftCore::try_batching, '
                          'ReadOnly::* (abstract model of the pending-read table)',
                          'specified helpers for std / protobuf calls (R9) and the three cut texts (R10) listed in the evidence file',
                          'protobuf decoding of proposed membership changes (uninterpreted)'],
@@ -331,7 +331,7 @@ PROPS = {'C18': {'title': 'Inflights window is a bounded FIFO under resizing',
          'undecided': ['completion in a healthy cluster'],
          'assumptions': ['mode S for raft.rs and raw_node.rs (fatal!/panic!/assert! abort; postconditions hold on normal return)',
                          'assumed contracts (fingerprint-locked in spec/assumed.lock.json): ProgressTracker::{get_mut, record_vote, clear}, '
-                         'Configuration::to_conf_state, Raft::{new, check_quorum_active, commit_apply, has_unapplied_conf_changes}, RaftCore::try_batching, '
+                         'Configuration::to_conf_state, Raft::has_unapplied_conf_changes, RaftCore::try_batching, '
                          'ReadOnly::* (abstract model of the pending-read table)',
                          'specified helpers for std / protobuf calls (R9) and the three cut texts (R10) listed in the evidence file'],
          'cone': {'S': ['raft']},
@@ -350,7 +350,7 @@ PROPS = {'C18': {'title': 'Inflights window is a bounded FIFO under resizing',
          'undecided': ['linearizability over all schedules'],
          'assumptions': ['mode S for raft.rs and raw_node.rs (fatal!/panic!/assert! abort; postconditions hold on normal return)',
                          'assumed contracts (fingerprint-locked in spec/assumed.lock.json): ProgressTracker::{get_mut, record_vote, clear}, '
-                         'Configuration::to_conf_state, Raft::{new, check_quorum_active, commit_apply, has_unapplied_conf_changes}, RaftCore::try_batching, '
+                         'Configuration::to_conf_state, Raft::has_unapplied_conf_changes, RaftCore::try_batching, '
                          'ReadOnly::* (abstract model of the pending-read table)',
                          'specified helpers for std / protobuf calls (R9) and the three cut texts (R10) listed in the evidence file'],
          'bounded': ['mon_cluster --prop C08: every ReadState on the issuing node with index >= the highest commit index at issue time']}}
